@@ -356,6 +356,73 @@ def constructor_family(ctx, only=None):
                          "constructors calling self.m()": list(calls[:depth]), "invariant": code})
 
 
+def no_init_classes(ctx, only=None):
+    """Classes WITHOUT a Python __init__ (plain class, typing.NamedTuple, a class that only defines __new__): their invariants
+    are checked when __new__ returns. An invariant that calls a public method of the object - directly, or through the
+    object's __repr__ while the violation message is built - re-enters the same object's invariants: the nested call is a
+    plain call. The condition runs once per construction and the message of a violated one shows the object through its
+    own __repr__ (no fallback rendering with a memory address)."""
+    import typing
+    import icontract
+
+    for kind in ("plain", "namedtuple", "own-new"):
+        for route in ("condition-calls-method", "repr-calls-method"):
+            for ok in (True, False):
+                key = [kind, route, ok]
+                if only is not None and only != key:
+                    continue
+                log = []
+
+                def inv(self):
+                    log.append("inv")
+                    if route == "condition-calls-method":
+                        self.double()
+                    return ok
+
+                def double(self):
+                    log.append("double")
+                    return 2 * self.x
+
+                def rep(self):
+                    return "P(%d)" % (self.double() if route == "repr-calls-method" else self.x)
+
+                try:
+                    if kind == "plain":
+                        P = icontract.invariant(inv)(type("P", (), {"x": 3, "double": double, "__repr__": rep}))
+                        make = lambda: P()  # noqa
+                    elif kind == "namedtuple":
+                        Base = typing.NamedTuple("Base", [("x", int)])
+                        P = icontract.invariant(inv)(type("P", (Base,), {"double": double, "__repr__": rep, "__slots__": ()}))
+                        make = lambda: P(3)  # noqa
+                    else:
+                        def new(cls, x):
+                            o = object.__new__(cls)
+                            o.x = x
+                            return o
+                        P = icontract.invariant(inv)(type("P", (), {"__new__": new, "double": double, "__repr__": rep}))
+                        make = lambda: P(3)  # noqa
+                    try:
+                        make()
+                        got = ("constructed", list(log), "")
+                    except icontract.ViolationError as e:
+                        got = ("violation", [x for x in log if x == "inv"], "address" if " at 0x" in str(e) else "")
+                    except RecursionError:
+                        got = ("RecursionError", len(log), "")
+                except BaseException as e:  # noqa
+                    got = ("%s: %s" % (type(e).__name__, str(e)[:80]), None, "")
+                if ok:
+                    want = ("constructed", ["inv"] + (["double"] if route == "condition-calls-method" else []), "")
+                else:
+                    want = ("violation", ["inv"], "")
+                ctx.case(["no-init-class"] + key, True, sample={"directed": "class without __init__ (%s), %s, invariant %s" % (
+                    kind, route, "holds" if ok else "violated"), "outcome": str(got)[:100]})
+                ctx.count("directed:no-init-classes")
+                if got != want:
+                    ctx.fail("no-init-class|%s|%s|%s" % (kind, route, "holds" if ok else "violated"), {"no_init_class": key},
+                             "%s class whose invariant re-enters the object (%s), invariant %s: expected (outcome, events, address in "
+                             "the message) %r, got %r" % (kind, route, "holds" if ok else "violated", want, got))
+
+
 def interpreter_modes(ctx, only=None):
     """The guard does not depend on the interpreter mode: a stand-alone program (vf/scripts/c10_optmode.py: contracts forced
     with enabled=True whose conditions, captures, error factories and invariants re-enter their own callable directly,
@@ -440,11 +507,17 @@ def run(ctx, tier, seed, shard, nshards):
         constructor_family(ctx)
         after_rejected_call(ctx)
         interpreter_modes(ctx)
+        no_init_classes(ctx)
 
 
 def replay(ctx, case):
     import sys
 
+    if case.get("no_init_class"):
+        before = ctx.evaluations
+        no_init_classes(ctx, only=case["no_init_class"])
+        ctx.evaluations = before + 1
+        return
     if case.get("interpreter_mode"):
         before = ctx.evaluations
         interpreter_modes(ctx, only=case["interpreter_mode"])
